@@ -89,7 +89,7 @@ theorem C06_expected_binding (hdr : List String) : ∀ (i : Nat) (sigs : List Si
 input-capable signal), in that order, each carrying that index's signal; `expected` likewise. -/
 theorem C06_vectors_complete (tc : TestCase) (entries : List REntry) (changed : List Bool)
     (ins : List InEntry) (exps : List ExpEntry)
-    (h1 : genInputs tc entries changed = .ok ins) (h2 : genExpected tc entries = .ok exps) :
+    (xcols : List Nat) (h1 : genInputs tc entries changed = .ok ins) (h2 : genExpected tc entries xcols = .ok exps) :
     ins.map (·.sig) = tc.inIdx.map (·.sig) ∧ exps.map (·.sig) = tc.expIdx.map (·.sig) := by
   constructor
   · obtain ⟨hl, hk⟩ := mapRes_ok _ _ _ h1
@@ -126,7 +126,9 @@ theorem C06_vectors_complete (tc : TestCase) (entries : List REntry) (changed : 
       simp only [hx, expectedFor] at this
       split at this
       · cases this
-      · split at this <;> (first | cases this | (injection this with this; rw [← this]; rfl))
+      · split at this
+        · injection this with this; rw [← this]; rfl
+        · split at this <;> (first | cases this | (injection this with this; rw [← this]; rfl))
     | dflt sig =>
       simp only [hx, expectedFor] at this
       split at this
@@ -138,7 +140,7 @@ expected value is `X` -/
 theorem C06_defaults (tc : TestCase) (entries : List REntry) (changed : List Bool) (sig : Nat) :
     (∀ e, inputFor tc entries changed (.dflt sig) = .ok e →
         e.changed = false ∧ ∃ s, tc.signals[sig]? = some s ∧ s.default? = some e.value) ∧
-    (∀ e, expectedFor tc entries (.dflt sig) = .ok e → e.value = .x) := by
+    (∀ xcols e, expectedFor tc entries xcols (.dflt sig) = .ok e → e.value = .x) := by
   constructor
   · intro e h
     simp only [inputFor] at h
@@ -148,7 +150,7 @@ theorem C06_defaults (tc : TestCase) (entries : List REntry) (changed : List Boo
       split at h
       · cases h
       · next v hv => cases h; exact ⟨rfl, s, hs, hv⟩
-  · intro e h
+  · intro xcols e h
     simp only [expectedFor] at h
     split at h
     · cases h
